@@ -11,6 +11,7 @@
   independence of the jennies) is decided by the correspondence runs of the check; see evidence.
 -/
 import Cog.Merge.Lemmas
+import Cog.Passes.RemoveIntersections
 namespace Cog.Merge
 open Cog Cog.IR Cog.OMap
 
@@ -284,5 +285,151 @@ theorem C07_unrelated_input (E : ObjEq) (ss : Schemas) (q : Schema) (pkg : Strin
     simp [groupOf, List.filter_append, h]
   unfold consolidatePkg
   rw [this]
+
+
+/-! ### A pass that keeps per-run bookkeeping: RemoveIntersections (Java chain)
+
+`objectsToRemove` / `arraysToFix` are Go maps keyed by bare object names.  Before the /repo fix
+"RemoveIntersections bookkeeping leaked from one schema into the next" they were filled once per
+`Process` call, so what one package contributed acted on every package processed afterwards
+(`runLeaky`, witness below: found by the thorough tier of this check as a Java file that differed
+when two inputs were swapped).  On the current tree the pass is schema-local, which gives the
+three C07 clauses for it: order of inputs, unrelated inputs, nothing but the own package read. -/
+
+namespace RI
+open Cog.Passes.RemoveIntersections
+
+/-- what the pass does to one schema, looking at nothing else -/
+def localRun (s : Schema) : Outcome Schema :=
+  match processSchema s {} with
+  | .ok (s', _) => .ok s'
+  | .err e => .err e
+  | .panic p => .panic p
+
+theorem runFrom_ok_iff : ∀ (ss : Schemas) (st : St) (R : Schemas),
+    runFrom ss st = .ok R ↔ All2 (fun s s' => localRun s = .ok s') ss R
+  | [], st, R => by
+    simp only [runFrom, All2.nil_left]
+    constructor
+    · intro h; cases h; rfl
+    · rintro rfl; rfl
+  | s :: rest, st, R => by
+    simp only [runFrom]
+    cases hp : processSchema s {} with
+    | ok r =>
+      obtain ⟨s1, st1⟩ := r
+      simp only
+      cases hr : runFrom rest {} with
+      | ok rest' =>
+        simp only
+        constructor
+        · intro h
+          cases h
+          exact .cons (by simp [localRun, hp]) ((runFrom_ok_iff rest {} rest').1 hr)
+        · intro h
+          cases R with
+          | nil => cases h
+          | cons r0 R0 =>
+            obtain ⟨h1, h2⟩ := All2.cons_cons.1 h
+            have e1 : s1 = r0 := by simpa [localRun, hp] using h1
+            have e2 := (runFrom_ok_iff rest {} R0).2 h2
+            rw [hr] at e2
+            cases e2
+            rw [e1]
+      | err e =>
+        simp only
+        constructor
+        · intro h; cases h
+        · intro h
+          cases R with
+          | nil => cases h
+          | cons r0 R0 =>
+            obtain ⟨_, h2⟩ := All2.cons_cons.1 h
+            have e2 := (runFrom_ok_iff rest {} R0).2 h2
+            rw [hr] at e2; cases e2
+      | panic e =>
+        simp only
+        constructor
+        · intro h; cases h
+        · intro h
+          cases R with
+          | nil => cases h
+          | cons r0 R0 =>
+            obtain ⟨_, h2⟩ := All2.cons_cons.1 h
+            have e2 := (runFrom_ok_iff rest {} R0).2 h2
+            rw [hr] at e2; cases e2
+    | err e =>
+      simp only
+      constructor
+      · intro h; cases h
+      · intro h
+        cases R with
+        | nil => cases h
+        | cons r0 R0 =>
+          obtain ⟨h1, _⟩ := All2.cons_cons.1 h
+          simp [localRun, hp] at h1
+    | panic e =>
+      simp only
+      constructor
+      · intro h; cases h
+      · intro h
+        cases R with
+        | nil => cases h
+        | cons r0 R0 =>
+          obtain ⟨h1, _⟩ := All2.cons_cons.1 h
+          simp [localRun, hp] at h1
+
+end RI
+
+/-- The pass is schema-local on the current tree: every output schema is the image of the input
+    schema at the same position under a function that looks at that schema alone. -/
+theorem C07_removeIntersections_local (ss R : Schemas) :
+    Cog.Passes.RemoveIntersections.run ss = .ok R ↔ All2 (fun s s' => RI.localRun s = .ok s') ss R :=
+  RI.runFrom_ok_iff ss {} R
+
+/-- Reordering the inputs only reorders the outputs. -/
+theorem C07_removeIntersections_input_order (ss ss' R : Schemas) (hp : ss.Perm ss')
+    (h : Cog.Passes.RemoveIntersections.run ss = .ok R) :
+    ∃ R', Cog.Passes.RemoveIntersections.run ss' = .ok R' ∧ R.Perm R' := by
+  obtain ⟨R', h2, p⟩ := all2_perm hp ((C07_removeIntersections_local ss R).1 h)
+  exact ⟨R', (C07_removeIntersections_local ss' R').2 h2, p⟩
+
+/-- An additional input changes nothing for the others: the images of the old inputs are the same
+    schemas, whatever the new one contains. -/
+theorem C07_removeIntersections_unrelated_input (ss R : Schemas) (q q' : Schema)
+    (h : Cog.Passes.RemoveIntersections.run ss = .ok R) (hq : RI.localRun q = .ok q') :
+    Cog.Passes.RemoveIntersections.run (q :: ss) = .ok (q' :: R) :=
+  (C07_removeIntersections_local (q :: ss) (q' :: R)).2
+    (.cons hq ((C07_removeIntersections_local ss R).1 h))
+
+namespace RI
+/-- package `a`: `AnyOf` is an alias of the struct `Int64OrString` -/
+def wA : Schema := { pkg := "a", objects := [
+  ("AnyOf", { name := "AnyOf", ty := .ref "a" "Int64OrString" {}, selfPkg := "a", selfName := "AnyOf" }),
+  ("Int64OrString", { name := "Int64OrString", ty := .struct [] [] none {}, selfPkg := "a", selfName := "Int64OrString" })] }
+/-- package `b`: a field refers to b's own `Int64OrString` -/
+def wB : Schema := { pkg := "b", objects := [
+  ("Holder", { name := "Holder", ty := .struct [{ name := "foo", ty := .ref "b" "Int64OrString" {}, required := false }] [] none {},
+               selfPkg := "b", selfName := "Holder" }),
+  ("Int64OrString", { name := "Int64OrString", ty := .struct [] [] none {}, selfPkg := "b", selfName := "Int64OrString" })] }
+
+/-- names of the objects package `b` ends up with -/
+def namesOfB : Outcome Schemas → List String
+  | .ok R => (R.filter (fun s => s.pkg == "b")).flatMap (fun s => s.objects.map (·.1))
+  | _ => ["<failed>"]
+end RI
+
+/-- Before the fix the result for package `b` depended on whether `a` came first: after `a`, b's
+    own `Int64OrString` is removed (and its field re-pointed at `a.AnyOf`). -/
+theorem C07_removeIntersections_leaky_order_dependent :
+    RI.namesOfB (Cog.Passes.RemoveIntersections.runLeaky [RI.wB, RI.wA]) = ["Holder", "Int64OrString"] ∧
+    RI.namesOfB (Cog.Passes.RemoveIntersections.runLeaky [RI.wA, RI.wB]) = ["Holder"] := by
+  decide +kernel
+
+/-- … and on the current tree it does not (instance of the theorems above; non-vacuity). -/
+example :
+    RI.namesOfB (Cog.Passes.RemoveIntersections.run [RI.wB, RI.wA]) = ["Holder", "Int64OrString"] ∧
+    RI.namesOfB (Cog.Passes.RemoveIntersections.run [RI.wA, RI.wB]) = ["Holder", "Int64OrString"] := by
+  decide +kernel
 
 end Cog.Merge
